@@ -74,7 +74,7 @@ func StrictIntLogicalLeftBitshift[T StrictInt](left T, right Value, shiftFunc lo
 			if r.IsSmallInt() {
 				rSmall := r.ToSmallInt()
 				if rSmall < 0 {
-					return left >> -rSmall, Undefined
+					return shiftFunc(left, uint64(-rSmall)), Undefined
 				}
 				return left << rSmall, Undefined
 			}
@@ -139,7 +139,7 @@ func StrictIntLogicalRightBitshift[T StrictInt](left T, right Value, shiftFunc l
 		switch r := right.AsReference().(type) {
 		case Int64:
 			if r < 0 {
-				return left << -r, Undefined
+				return left << uint64(-r), Undefined
 			}
 			return shiftFunc(left, uint64(r)), Undefined
 		case UInt64:
@@ -148,7 +148,7 @@ func StrictIntLogicalRightBitshift[T StrictInt](left T, right Value, shiftFunc l
 			if r.IsSmallInt() {
 				rSmall := r.ToSmallInt()
 				if rSmall < 0 {
-					return left << -rSmall, Undefined
+					return left << uint64(-rSmall), Undefined
 				}
 				return shiftFunc(left, uint64(rSmall)), Undefined
 			}
@@ -163,31 +163,31 @@ func StrictIntLogicalRightBitshift[T StrictInt](left T, right Value, shiftFunc l
 	case SMALL_INT_FLAG:
 		r := right.AsSmallInt()
 		if r < 0 {
-			return left << -r, Undefined
+			return left << uint64(-r), Undefined
 		}
 		return shiftFunc(left, uint64(r)), Undefined
 	case INT64_FLAG:
 		r := right.AsInlineInt64()
 		if r < 0 {
-			return left << -r, Undefined
+			return left << uint64(-r), Undefined
 		}
 		return shiftFunc(left, uint64(r)), Undefined
 	case INT32_FLAG:
 		r := right.AsInt32()
 		if r < 0 {
-			return left << -r, Undefined
+			return left << uint64(-r), Undefined
 		}
 		return shiftFunc(left, uint64(r)), Undefined
 	case INT16_FLAG:
 		r := right.AsInt16()
 		if r < 0 {
-			return left << -r, Undefined
+			return left << uint64(-r), Undefined
 		}
 		return shiftFunc(left, uint64(r)), Undefined
 	case INT8_FLAG:
 		r := right.AsInt8()
 		if r < 0 {
-			return left << -r, Undefined
+			return left << uint64(-r), Undefined
 		}
 		return shiftFunc(left, uint64(r)), Undefined
 	case UINT_FLAG:
@@ -216,7 +216,7 @@ func StrictIntRightBitshift[T StrictInt](left T, right Value) (T, Value) {
 		switch r := right.AsReference().(type) {
 		case Int64:
 			if r < 0 {
-				return left << -r, Undefined
+				return left << uint64(-r), Undefined
 			}
 			return left >> r, Undefined
 		case UInt64:
@@ -225,7 +225,7 @@ func StrictIntRightBitshift[T StrictInt](left T, right Value) (T, Value) {
 			if r.IsSmallInt() {
 				rSmall := r.ToSmallInt()
 				if rSmall < 0 {
-					return left << -rSmall, Undefined
+					return left << uint64(-rSmall), Undefined
 				}
 				return left >> rSmall, Undefined
 			}
@@ -240,31 +240,31 @@ func StrictIntRightBitshift[T StrictInt](left T, right Value) (T, Value) {
 	case SMALL_INT_FLAG:
 		r := right.AsSmallInt()
 		if r < 0 {
-			return left << -r, Undefined
+			return left << uint64(-r), Undefined
 		}
 		return left >> r, Undefined
 	case INT64_FLAG:
 		r := right.AsInlineInt64()
 		if r < 0 {
-			return left << -r, Undefined
+			return left << uint64(-r), Undefined
 		}
 		return left >> r, Undefined
 	case INT32_FLAG:
 		r := right.AsInt32()
 		if r < 0 {
-			return left << -r, Undefined
+			return left << uint64(-r), Undefined
 		}
 		return left >> r, Undefined
 	case INT16_FLAG:
 		r := right.AsInt16()
 		if r < 0 {
-			return left << -r, Undefined
+			return left << uint64(-r), Undefined
 		}
 		return left >> r, Undefined
 	case INT8_FLAG:
 		r := right.AsInt8()
 		if r < 0 {
-			return left << -r, Undefined
+			return left << uint64(-r), Undefined
 		}
 		return left >> r, Undefined
 	case UINT_FLAG:
@@ -293,7 +293,7 @@ func StrictIntLeftBitshift[T StrictInt](left T, right Value) (T, Value) {
 		switch r := right.AsReference().(type) {
 		case Int64:
 			if r < 0 {
-				return left >> -r, Undefined
+				return left >> uint64(-r), Undefined
 			}
 			return left << r, Undefined
 		case UInt64:
@@ -302,7 +302,7 @@ func StrictIntLeftBitshift[T StrictInt](left T, right Value) (T, Value) {
 			if r.IsSmallInt() {
 				rSmall := r.ToSmallInt()
 				if rSmall < 0 {
-					return left >> -rSmall, Undefined
+					return left >> uint64(-rSmall), Undefined
 				}
 				return left << rSmall, Undefined
 			}
@@ -317,31 +317,31 @@ func StrictIntLeftBitshift[T StrictInt](left T, right Value) (T, Value) {
 	case SMALL_INT_FLAG:
 		r := right.AsSmallInt()
 		if r < 0 {
-			return left >> -r, Undefined
+			return left >> uint64(-r), Undefined
 		}
 		return left << r, Undefined
 	case INT64_FLAG:
 		r := right.AsInlineInt64()
 		if r < 0 {
-			return left >> -r, Undefined
+			return left >> uint64(-r), Undefined
 		}
 		return left << r, Undefined
 	case INT32_FLAG:
 		r := right.AsInt32()
 		if r < 0 {
-			return left >> -r, Undefined
+			return left >> uint64(-r), Undefined
 		}
 		return left << r, Undefined
 	case INT16_FLAG:
 		r := right.AsInt16()
 		if r < 0 {
-			return left >> -r, Undefined
+			return left >> uint64(-r), Undefined
 		}
 		return left << r, Undefined
 	case INT8_FLAG:
 		r := right.AsInt8()
 		if r < 0 {
-			return left >> -r, Undefined
+			return left >> uint64(-r), Undefined
 		}
 		return left << r, Undefined
 	case UINT_FLAG:
